@@ -522,6 +522,9 @@ func (c *CEnv) binary(e *CE, hint *Value) Value {
 }
 
 func (c *CEnv) field(e *CE) Value {
+	if l := c.ghostLoc(e); l != nil {
+		return c.x.loadLoc(c.heap(), l)
+	}
 	// package-qualified constant?
 	if e.Args[0].Kind == "id" && c.pkg != nil {
 		if _, isVar := c.tryIdent(e.Args[0].Name); !isVar {
@@ -607,6 +610,9 @@ func (c *CEnv) fieldLoc(l *Loc, name string) *Loc {
 func (c *CEnv) evalLoc(e *CE, st *State) *Loc {
 	switch e.Kind {
 	case "field":
+		if l := c.ghostLoc(e); l != nil {
+			return l
+		}
 		base := c.eval(e.Args[0])
 		if base.K != KPtr {
 			c.fail("designator base is not a pointer: %s", e)
@@ -703,6 +709,24 @@ func (c *CEnv) quant(e *CE) Value {
 	defer func() { c.bound = saved }()
 	var vars [][2]string
 	var guards []*Term
+	if e.Typ == "" && len(e.Vars) == 1 {
+		// a small literal range is expanded into a conjunction / disjunction (no quantifier for the solver)
+		lo := c.evalH(e.Args[0], &Value{K: KScalar, X: m.ix(0)}).X
+		hi := c.evalH(e.Args[1], &Value{K: KScalar, X: m.ix(0)}).X
+		lv, ok1 := litValue(lo)
+		hv, ok2 := litValue(hi)
+		if ok1 && ok2 && lv.IsInt64() && hv.IsInt64() && hv.Int64()-lv.Int64() <= 8 {
+			var parts []*Term
+			for k := lv.Int64(); k < hv.Int64(); k++ {
+				nb[e.Vars[0]] = Value{K: KScalar, T: types.Typ[types.Int], X: m.ix(k)}
+				parts = append(parts, c.evalBool(e.Args[2]))
+			}
+			if e.Kind == "forall" {
+				return Value{K: KScalar, X: And(parts...)}
+			}
+			return Value{K: KScalar, X: Or(parts...)}
+		}
+	}
 	c.x.vc.nfresh++
 	tag := c.x.vc.nfresh
 	vc := c.x.vc
@@ -846,6 +870,17 @@ func (c *CEnv) callExpr(e *CE, hint *Value) Value {
 	case "pow2":
 		a := c.evalH(e.Args[0], nil)
 		return c.mathInt(c.x.pow2Term(a.X))
+	case "iter":
+		// iter(k): ghost count of completed iterations of loop k of the function under proof
+		if len(e.Args) != 1 || e.Args[0].Kind != "num" || c.fr == nil || c.mode != ModeInt {
+			c.fail("iter(k): needs a literal loop ordinal (mode int)")
+		}
+		k := int(e.Args[0].Num.Int64())
+		it := c.fr.iter[k]
+		if it == nil {
+			c.fail("iter(%d): loop not entered at this point", k)
+		}
+		return c.mathInt(it)
 	case "bytelen":
 		a := c.evalH(e.Args[0], nil)
 		c.x.vc.needByteLen()
@@ -1117,6 +1152,30 @@ func (vc *VC) useSpec(c *CEnv, sf *SpecFn) {
 
 // lookupLocal resolves a source-level variable name at a block of the frame's function.
 func (x *Exec) lookupLocal(fr *Frame, at *ssa.BasicBlock, st *State, name string) (Value, bool) {
+	return x.lookupLocalAt(fr, at, -1, st, name)
+}
+
+// lookupLocalAt resolves name as seen just before instruction upto of block at (upto < 0: at the block's phis).
+func (x *Exec) lookupLocalAt(fr *Frame, at *ssa.BasicBlock, upto int, st *State, name string) (Value, bool) {
+	if upto >= 0 {
+		// the latest definition inside the block before the instruction wins over the block's phis
+		for k := upto - 1; k >= 0; k-- {
+			if i, ok := at.Instrs[k].(*ssa.DebugRef); ok && identName(i) == name {
+				if i.IsAddr {
+					if a, ok := fr.env[i.X]; ok && a.K == KPtr {
+						return x.loadLoc(st, a.Loc), true
+					}
+					continue
+				}
+				if cst, ok := i.X.(*ssa.Const); ok {
+					return x.constValue(st, cst), true
+				}
+				if v, ok := fr.env[i.X]; ok {
+					return v, true
+				}
+			}
+		}
+	}
 	// phis of this block
 	for _, ins := range at.Instrs {
 		phi, ok := ins.(*ssa.Phi)
